@@ -238,6 +238,10 @@ pub fn run(tier: &str) -> i32 {
     for c in COMPS {
         items.extend(small_maps(nids, c));
     }
+    for c in COMPS {
+        items.extend(maps_over(&IDS_VARINT, 2, c));
+        items.extend(maps_over(&IDS_U32, 2, c));
+    }
     let bad: Vec<(usize, Api, String)> = items
         .par_iter()
         .enumerate()
